@@ -19,7 +19,7 @@ ASSUMPTIONS = ["for generic-valued rank deficiency reached only through fill (S6
                "SLUV_SINGULAR event (nsupr == nsupc), not by input"]
 BUDGET = {
     "quick": {"examples": 21000, "workers": 14, "time_budget": 80, "variants": ["asan"]},
-    "thorough": {"examples": 250000, "workers": 14, "time_budget": 1300, "variants": ["asan", "vendor"], "variant_share": {"asan": 0.75, "vendor": 0.25}},
+    "thorough": {"examples": 250000, "workers": 14, "time_budget": 1300, "variants": ["asan", "vendor", "omp", "long"], "variant_share": {"asan": 0.6, "vendor": 0.2, "omp": 0.1, "long": 0.1}},
 }
 
 
